@@ -309,17 +309,17 @@ theorem visitE_inv (cfg : Config) : ∀ (e : Expr) (n : Nat) (e' : Expr) (D : Li
       · next hk =>       -- Dict
         simp only [bind_ok, Prod.exists] at h
         obtain ⟨ks1, d1, n1, hv, h⟩ := h
-        rcases hE1 : ensureList cfg "Dict" "keys" (List.take ((ats.headD "0").toNat?.getD 0) ks1) n1 with ⟨a2, h1, n2⟩
-        rcases hE2 : ensureList cfg "Dict" "values" (List.drop ((ats.headD "0").toNat?.getD 0) ks1) n2 with ⟨b2, h2, n3⟩
+        rcases hE1 : ensureList cfg "Dict" "keys" (List.take (dictNk ats) ks1) n1 with ⟨a2, h1, n2⟩
+        rcases hE2 : ensureList cfg "Dict" "values" (List.drop (dictNk ats) ks1) n2 with ⟨b2, h2, n3⟩
         simp only [hE1, hE2] at h; vclose h
         obtain ⟨rfl, rfl, rfl⟩ := h
         have iv := visitEs_inv cfg _ _ _ _ _ hv
         have hq := iv.quiet
-        rw [quiets_take_drop cfg ((ats.headD "0").toNat?.getD 0), Bool.and_eq_true] at hq
+        rw [quiets_take_drop cfg (dictNk ats), Bool.and_eq_true] at hq
         have he1 := ensureList_spec' hq.1 hE1
         have he2 := ensureList_spec' hq.2 hE2
-        have hl1 := ensureList_length cfg "Dict" "keys" (List.take ((ats.headD "0").toNat?.getD 0) ks1) n1
-        have hl2 := ensureList_length cfg "Dict" "values" (List.drop ((ats.headD "0").toNat?.getD 0) ks1) n2
+        have hl1 := ensureList_length cfg "Dict" "keys" (List.take (dictNk ats) ks1) n1
+        have hl2 := ensureList_length cfg "Dict" "values" (List.drop (dictNk ats) ks1) n2
         rw [hE1] at hl1; rw [hE2] at hl2
         have hr := take_drop_rebuild _ ks1 a2 b2 hl1 hl2
         refine ⟨(iv.hoists.append he1.1).append he2.1, ?_, fun hd => ?_, rfl⟩
